@@ -205,213 +205,208 @@ REGISTRY = {
 NOT_BUILT = "check not built yet at this commit (work in progress; see DESIGN.md section 9 for the order of work)"
 NOT_APPLICABLE = {("C%02d" % i): NOT_BUILT for i in range(1, 20)}
 
-MANIFEST_TEXT = {
-    "C02": {
-        "text": 'Lean: C02_chain (in every accepted program each statement has a numeric address, the first non-ORG statement sits at 0 and every non-ORG statement sta'
-                "rts at its predecessor's address + size), C02_telescope, C02_org_address / C02_org_final / C02_org_symbol (only ORG presets an address: its resolved o"
-                "perand, a non-negative number), C02_image (image = concatenation of the statements' bytes), C02_symbols (labels are bound to the listing address of th"
-                'eir statement, EQU symbols to their operand value), C02_duplicate_label; C02_BytesEqSize_holds (Props/C02Size): EVERY statement of EVERY accepted prog'
-                'ram emits exactly `size` bytes, for every input - instructions of every addressing mode, register lists, data directives, RMB, FCC, the directives tha'
-                't emit nothing (the former FCC hypothesis is gone since fix 8b7d004: C02_strings_narrow); hence C02_image_exists and C02_offset_full: with no ORG afte'
-                "r statement k, statement i's bytes sit at offset address(i) - address(k) of the image. C02_Statement_false only through an ORG in mid-program (finding"
-                ' B1).',
-        "design_ref": "DESIGN.md section 5 C02, section 6 B",
-        "note": "known finding B1 (a later ORG / code before ORG is accepted); 'byte count = size' is a theorem since fixes 985348a / 8b7d004",
-        "technique": "Lean 4 proof (address fold induction, frame lemmas for the later passes, symbol-table lemmas) + differential correspondence + listing re-computation oracle",
-    },
-    "C03": {
-        "text": 'Lean: C03_diag_iff (a short branch is a diagnostic exactly when its target is out of -128..+127), C03_field / C03_bytes, C03_branch (with no ORG in be'
-                'tween: target address = address + size + sext(d8), resp. mod 65536 for long branches - by telescoping sizes into addresses), C03_branch_is_label / C03'
-                '_branch_nonlabel_rejected (a branch to a number or expression is a diagnostic); PCR: C03_pcr_clause - the PCR clause of the statement for EVERY accept'
-                "ed program, ORG or not: the emitted field of label,PCR / [label,PCR] / label+-c,PCR reaches the label's address (+ constant) from the next instruction"
-                ', both widths (fixOne computes from addresses; the 8-bit form is refused when a later ORG makes the distance too large, fix abbd512); C03_pcr8_in_rang'
-                "e / C03_pcr8_byte (every 8-bit PCR statement stores the two's complement byte of a displacement -128 <= d <= 127), C03_size_sound, C03_force_is_16 (th"
-                'e size loop), tight and regression witnesses. C03_Statement_false only through its branch clause across an ORG (finding B1: branch displacements are s'
-                'ums of sizes). One finding with witness: C03_pcr_plus_negative_finding (label+N,PCR with a NEGATIVE EQU N takes the magnitude), repaired in the next b'
-                'atch.',
-        "design_ref": "DESIGN.md section 5 C03, section 6 B",
-        "note": 'known finding B1 (branch across an ORG)',
-        "technique": "Lean 4 proof (telescoping size sums to address differences; fixOne case analysis) + differential correspondence + decode-and-check-target oracle",
-    },
-    "C13": {
-        "text": "Lean: assemble_not_diverged (assembly terminates for EVERY input: the PCR size loop settles a statement per pass or the progress guard forces "
-                "one) and assemble_internal_iff_expand: assemble ends in an internal error IF AND ONLY IF "
-                "INCLUDE expansion ran out of the model's fuel (more than 64 nested files, standing for Python's RecursionError); in every other case - for "
-                "EVERY input text - the result is output or a diagnostic (C13_of_expand_ne_internal, C13_no_include). Proved stage by stage from invariants of "
-                "the values the parser can produce (no hypothesis assumed). C13_Statement_false only through the 65-nested-INCLUDE program. "
-                "parseLine(s)_no_internal; C10's asmMain_failure gives the exit-status clause.",
-        "design_ref": "DESIGN.md section 5 C13, section 6 I",
-        "note": "internal errors found on the way were repaired (fix: commits dfaa72e, 53e40d1, 3dc4a50, 077e4c2, 316e504, 8c9a9ea, 0addc5e, dfad397, 145359a); the streams run under a 3 s watchdog",
-        "technique": "Lean 4 proof (termination measure for the size fixpoint; outcome case analysis of the parser) + differential correspondence with watchdog + CLI exit-status oracle",
-    },
-    "C17": {
-        "text": "Translation validation of a stateless model: the Lean model assemble is a pure function (C17_history_free, C17_repeatable are immediate), so the "
-                "content of this property is whether the PYTHON code carries state between assemblies; that is decided by running the implementation on "
-                "random histories (accepted and rejected programs interleaved) in one interpreter, in fresh processes and under different hash seeds, and "
-                "comparing each result with the implementation's own first result and with the history-free model, plus the source list before/after.",
-        "design_ref": "DESIGN.md section 5 C17",
-        "note": "not a proof about the Python: aliasing/mutation of module-level objects cannot be stated in Lean about a pure model; level translation_validation",
-        "technique": "translation validation: history-free Lean model vs warm-process / fresh-process runs of the implementation (differential, metamorphic)",
-    },
-    "C18": {
-        "text": "Lean: C18_R3 (white space between fields, comments and mnemonic case do not change what a line parses to: scanLine_render is the canonical-form "
-                "lemma of the line scanner with the exact side condition under which a comment is not swallowed by the operand field), C18_R4 (appending "
-                "statements keeps the statements, symbol table and image of the shorter program as prefixes — proved through every stage incl. the PCR size "
-                "loop by a stuttering simulation). R1 RELOCATION (Props/C18Reloc*, Lemmas/Reloc*): reloc_assign_iff (the moved program is laid out iff the original "
-                "is, every address + D), reloc_fixOne_unmoved / _moved and reloc_bytes_unmoved / _moved (branches, PCR operands, label-label and label-free "
-                "operands emit identical bytes; label, label+k, label-k emit the same bytes with the 16-bit field + D), reloc_finish (symbol table: labels + D, "
-                "EQU unchanged), lifted to parsed programs and source text (C18_R1_parsed, C18_R1_code, C18_R1 on the repaired statement: the literal "
-                "C18_R1_Statement is false because an arbitrary 'label' string can turn the ORG line into a comment - C18_R1_Statement_false); classes with "
-                "no claim are witnessed (reloc_crossing_100: JMP L is 2 bytes below $100; label*k; LEAX B-A,PCR). R2 RENAMING (Props/C18Rename, partial): "
-                "lookup, Value.resolve, buildSymTab and non-indexed resolveOperand commute with an injective renaming; the rest of R2 is decided by the "
-                "metamorphic oracle on the implementation plus the correspondence.",
-        "design_ref": "DESIGN.md section 5 C18",
-        "note": "known finding S1 (symbol names with '_' or '@'); R2 proved up to operand resolution only",
-        "technique": "Lean 4 proof (scanner canonical form; prefix stability through all passes) + metamorphic oracle on the implementation + differential correspondence",
-    },
-    "C19": {
-        "text": "Lean: include_textual (for every file system, prefix, suffix and include line: assembling with INCLUDE f equals assembling with the lines of f "
-                "spliced in, whenever the including side does not end in an internal error), include_textual_star (any nesting, by induction), "
-                "include_textual_cases (unconditional trichotomy), include_missing_diag / include_cycle_diag (a missing file and an inclusion cycle are "
-                "diagnostics), C19_partial; C19_not_full only through nesting deeper than 64 files.",
-        "design_ref": "DESIGN.md section 5 C19",
-        "note": "missing files and cycles are diagnostics since fix 8c9a9ea (include_missing_diag, include_cycle_diag); 'internal' remains only through INCLUDE nesting deeper than the model's fuel (64), which stands for Python's RecursionError",
-        "technique": "Lean 4 proof (expansion distributes over concatenation, fuel monotonicity) + differential correspondence + implementation-vs-implementation splice oracle",
-    },
-    "C09": {
-        "text": "Lean: sniff_written_disk (every image the tool writes as a disk is recognised as a disk, whatever its content), sniff_written_cassette (a written "
-                "cassette shorter than 161,280 bytes is recognised as a cassette), hist_cassette / hist_disk (for EVERY history of add-batches with save and "
-                "re-open in between, the final image is exactly the image of all files in order, so every stored file lists unchanged and new ones come last; "
-                "induction over the history using C06/C07/C08), C09_Statement_false via E1. Exclusions: E1, G1 (K_C09_bigCassette), disk names with blanks.",
-        "design_ref": "DESIGN.md section 5 C09, section 6 G",
-        "note": "known findings E1, G1; trusted: Lean kernel, Spec files, correspondence (real temp files vs abstract FS)",
-        "technique": "Lean 4 proof (refinement of save/re-open histories to an append-only file list, sniffing lemmas) + differential histories on real files + reader oracle",
-    },
-    "C10": {
-        "text": "Lean: C10_partial (a successful open/add/save changes only the target path; an existing target is rewritten only when append was requested AND "
-                "the tool's sniffer took its old content for an image of the requested kind, and the new content is exactly the image of old files ++ new "
-                "files), C10_no_append (without append an existing target is never written), C10_outside_exclusion (the statement with the FORMAT "
-                "specifications as criterion, outside K_C10_sniff = sniffer accepts what the specification rejects: finding G1), asmMain_failure (no "
-                "successful assembly => exit 1 and the file system unchanged). PARTIAL by nature: non-atomic host writes and exists-races are outside any model.",
-        "design_ref": "DESIGN.md section 5 C10",
-        "note": "known finding G1; named remainder: OS write atomicity, os.path.exists races",
-        "technique": "Lean 4 proof over an abstract host file system (frame + guard theorem for open/add/save) + differential runs of both command lines on real files + format-spec classification oracle",
-    },
-    "C11": {
-        "text": "Lean: C11_bin (the raw binary written to a fresh path is the assembled image), C11_cas / C11_dsk (the file written is Cas.write [f] / "
-                "Dsk.write [f] for f = (name, image, load = exec = origin); with C14/C06 resp. C08/C07 it is well formed and lists exactly that file), "
-                "C11_name_source / C11_name_arg, C11_load_org / C11_load_none (the origin's hex path gives the right 16-bit address), C11_noname, C11_all, C11_partial.",
-        "design_ref": "DESIGN.md section 5 C11",
-        "note": "hypotheses of C11_partial: image bytes < 256 and origin < 65536 (originAddr_lt_cases discharges the ORG spellings); E1 for an empty program",
-        "technique": "Lean 4 proof (glue lemmas composing the assembler model with C06/C07/C08/C14) + differential command-line runs + reference-reader oracle",
-    },
-    "C16": {
-        "text": "Lean: C16_to_cas / C16_to_dsk / C16_to_bin (the converted image is the writer's image of exactly the selected files of the source in source order; "
-                "--to_bin refuses more than one file), C16_selected_* (selection is case-insensitive), C16_chain_cas_dsk_cas / C16_chain_dsk_cas_dsk "
-                "(converting back yields the original file set up to the normalisation of each container), C16_partial.",
-        "design_ref": "DESIGN.md section 5 C16",
-        "note": "exclusions inherited: E1, G1; trusted as for C06/C07",
-        "technique": "Lean 4 proof (filter lemma + container round-trip theorems) + differential file_util runs + reference-reader oracle",
-    },
-    "C01": {
-        "text": 'Lean: (i) table_matches_datasheet / map_covered - the instruction table REGENERATED from /repo on every run agrees cell by cell (operation, addressing'
-                ' mode, size) with the datasheet opcode map, both directions, by kernel evaluation over all 150 rows; (ii) Encodes r o x = translate, then fit_operand_'
-                'width (fitWidth), then emit: the bytes are read back by the datasheet decoder as exactly that operation and operand, byte count = size. C01_full : C01'
-                '_Statement - for EVERY non-pseudo row and EVERY operand of the full-strength relation Intends (inherent; 8-/16-bit immediates incl. negatives; direct;'
-                ' extended; [extended indirect]; no-offset, auto inc/dec, accumulator forms for X Y U S and their indirect variants; 5/8/16-bit constant offsets of eit'
-                'her sign, direct and indirect; numeric n,PCR and [n,PCR]; all TFR/EXG pairs; push/pull lists) the statement is encoded as written, for ALL operand val'
-                'ues and ANY spelling hint; C01_full_emitted lifts it to the fixAll step of any program; the former findings are *_fixed theorems on the same witnesses'
-                ' (LDD 100,X = EC 88 64; LDA #256 rejected; PSHU S = 36 40; LDA 0,PCR = A6 8C 00 ...); (iii) C01_text_partial / C01_text_rendered / C01_text_pcr_render'
-                'ed (Props/C01Text): the same from the OPERAND TEXT for every spelling family (decimal / $hex literals as immediates, direct, extended, <n, >n, >$hh, ['
-                'indirect]; ,R ,R+ ,R++ ,-R ,--R, A,R B,R D,R for X Y U S with [..] variants; decimal offsets of every width and sign; n,PCR) plus rejection theorems. '
-                'Intends speaks about numeric operands; label operands are C03 (label,PCR, branches) and finding C3; symbols and expressions are tied by the statement '
-                'matrix.',
-        "design_ref": "DESIGN.md section 5 C01, section 6 A",
-        "note": 'known finding C3 (a label as non-PCR index offset is rejected); trusted: Spec/MC6809*.lean, Lean kernel, correspondence (statement matrix complete in the thorough tier, sampled in quick)',
-        "technique": "Lean 4 proof (kernel-evaluated table check + per-addressing-mode encode/decode theorems for all values) + differential correspondence + datasheet-decoder oracle",
-    },
-    "C12": {
-        "text": 'Lean: C12_full : C12_Statement (Props/C12Full, Lemmas/EncodeShape) - for every machine-instruction row, EVERY operand text and every table of EQU cons'
-                'tants: the operand the front end builds (create_from_str cascade, then resolve_symbols), if translate and fit_operand_width accept it, emits exactly `'
-                'size` bytes that the datasheet decoder reads as ONE complete instruction of that mnemonic consuming all of them. Proved by a shape theorem for everyth'
-                'ing the front end can build (frontEnd_shape) and one soundness theorem per shape; the index-register text is validated since fix d1a841f, which makes '
-                "the case analysis finite. Rejections: C12_imm8/imm16/direct_out_of_range_rejected (values that cannot be represented in the operand's width), C12_unkn"
-                'own_index_register_rejected (5,Z 1,PC 5,y ,X+++), C12_own_stack_pointer_rejected (PSHS S, PSHU U), C12_unknown_register_rejected, C12_pcr_without_offs'
-                'et_rejected; C12_fitted_size (the size half for every statement of any program). One finding left with a witness: C12_finding_acc_autoincrement (LDA A'
-                ",X+ is accepted as A,X). Label operands (branches, label,PCR) are completed by the address pass and are C03's and C02's theorems; arbitrary text is ad"
-                'ditionally covered by the correspondence and the decoder oracle.',
-        "design_ref": "DESIGN.md section 5 C12, section 6 A, H",
-        "note": 'finding C12_finding_acc_autoincrement is repaired in the next batch; trusted: Spec/MC6809*.lean, Lean kernel, correspondence',
-        "technique": "Lean 4 proof (soundness dual of C01 on the proved region, refutation witnesses) + differential correspondence + datasheet-decoder oracle on accepted statements",
-    },
-    "C04": {
-        "text": 'Lean: C04_full : C04_Statement - (numeric part) for operands of EITHER sign a two-term expression resolves to the arithmetic value of + - * and trunca'
-                'ting / (resolve_signed, resolve_symbols_signed), the result being an extended address above 255 (fix 03f5b0d) and a negative memory operand the extend'
-                'ed address mod 65536 (C04_negative_extended); division by zero and results above 65535 are errors; (symbol part) EQU symbols are replaced by their tab'
-                'le value whatever the definition order (resolve_symbol_left/right, resolve_depends_only_on_lookup); label arithmetic: addrOffset_* (label +- constant,'
-                " label +- label from the ADDRESSES, signed constants, '-' reduced mod 65536, overflow and division by zero are diagnostics); whole-program witnesses ("
-                "X EQU -5; LDX #X = 8E FF FB; symbol table $FFFB X). The width per operand position is C01's / C12's theorem. Remaining findings with kernel-checked wi"
-                'tnesses: C04_finding_equ_expression (C4), C04_finding_label_index_offset (C3), operand order ignored in label expressions (5-LABEL computed as LABEL-5'
-                ').',
-        "design_ref": "DESIGN.md section 5 C04, section 6 C",
-        "note": 'known findings C3, C4; the operand-order finding is repaired in the next batch; trusted: Lean kernel, correspondence, decoder oracle',
-        "technique": "Lean 4 proof (expression evaluator and address-offset lemmas) + differential correspondence + arithmetic oracle on decoded operand values",
-    },
-    "C05": {
-        "text": "Lean: C05_full proves C05_Statement at full strength on the model: a single FCB / FDB value emits its two's complement at one / two bytes (through fit"
-                '_operand_width) for every in-range value incl. negatives, out-of-range values are rejected (C05_FCB/FDB_single_rejected), lists likewise element by el'
-                'ement (C05_FCB/FDB_signed_list(_rejected)), RMB n emits n zero bytes for every n and a negative or non-numeric count is rejected, FCC emits exactly th'
-                'e characters of the parsed string, EQU/SETDP/NAM/END/INCLUDE emit nothing, ORG takes a non-negative number; symbols: C05_FCB/FDB/RMB/ORG_symbol (an EQ'
-                'U symbol evaluates), C05_undefined_symbol; whole-program kernel-checked witnesses through assemble (C05_program_FDB_label, _RMB_symbol, _ORG_symbol, _'
-                'FCB_label, _negatives, _rejected). Remaining findings with witnesses: C05_finding_list_symbol (a symbol inside a LIST is rejected), the FCC reconstruc'
-                'tion from two regex groups (D3: C05_FCC holds for the parsed string, the line scanner decides what that string is).',
-        "design_ref": "DESIGN.md section 5 C05, section 6 D",
-        "note": 'known findings C2 (lists only), D3; trusted: Lean kernel, correspondence',
-        "technique": "Lean 4 proof (data-directive emission lemmas by induction over value lists / string / count) + differential correspondence + byte-exact oracle",
-    },
-    "C07": {
-        "text": "Lean theorems C07_write_list (for EVERY valid fill order and file list: list(write fs) = norm fs) and C07_reader_partial (the reader "
-                "returns exactly what the reference reader Spec.DiskBasic.read finds on ANY image satisfying Spec.DiskBasic.Fsck, chains in any order, "
-                "not adjacent), proved from an invariant over operation histories on the flat 161,280-byte buffer. One exclusion "
-                "(ASCII file with a $C0 last-granule marker). Tie: differential runs on written, fragmented and damaged images every run.",
-        "design_ref": "DESIGN.md section 5 C07, section 6 F",
-        "note": "model = disk.py after the fix: commits (reader follows the FAT chain); trusted: Spec/DiskBasic.lean, Lean kernel, sampled correspondence",
-        "technique": "Lean 4 proof (history invariant on the flat disk buffer, chain-walk induction) + differential correspondence + reference fsck/reader oracle",
-    },
-    "C08": {
-        "text": "Lean theorem C08_full: for every fill order with entries < 68 and every sequence of stored files, the image written satisfies "
-                "Spec.DiskBasic.Fsck (size, chains within 0..67 ending in $C0..$C9 without revisits, disjoint, every non-free FAT entry on a chain, implied "
-                "length = stored stream incl. ML header/trailer, everything else still $FF) and the reference reader returns exactly the stored files. "
-                "No exclusions. Tie: whole-image hash + FAT + directory compared with the implementation on every run; calculate_*/seek_granule exhaustively.",
-        "design_ref": "DESIGN.md section 5 C08",
-        "note": "model = disk.py after the fix: commits (postamble split across granules); trusted: Spec/DiskBasic.lean, Lean kernel, correspondence (exhaustive on the arithmetic helpers, sampled on histories)",
-        "technique": "Lean 4 proof: ghost-abstraction invariant Inv img abs preserved by addFile, lifted by induction over histories + differential correspondence + fsck oracle",
-    },
-    "C15": {
-        "text": "Lean theorem C15_full: on every image reachable from a blank one, a file needing n <= free granules with a free slot is stored with free' = free - n, "
-                "slots' = slots - 1, previously used FAT entries untouched, n = streamLength/2304 + 1; otherwise addFile is a diagnostic; blank offers 68 and 72. "
-                "Tie: fill-to-exhaustion histories against the implementation one add at a time, recounted by the reference fsck.",
-        "design_ref": "DESIGN.md section 5 C15",
-        "note": "the 'host file left as it was' clause is carried by the VirtualFile model (C10: a diagnostic in save writes nothing); trusted as for C08",
-        "technique": "Lean 4 proof (corollary of the C08 invariant with counting) + differential fill-to-exhaustion histories + fsck recount oracle",
-    },
-    "C06": {
-        "text": "Lean theorems C06_roundtrip_partial (list(write fs) = norm fs for every file list, every data length and content) and "
-                "C06_reader_partial (the scanning reader returns exactly the files of ANY well-formed tape stream: arbitrary gap/leader "
-                "lengths, gaps between data blocks, payloads containing the block markers), by induction over the tape grammar; the only "
-                "exclusion is files with empty data (known finding E1, itself a kernel-checked theorem C06_finding_E1). The model is tied "
-                "to cassette.py on every run by differential execution (tool-written images, spec-generated tapes, damaged streams).",
-        "design_ref": "DESIGN.md section 5 C06, section 6 E",
-        "note": "assumes ASCII names and byte-sized fields; trusted: Spec/Tape.lean, Lean kernel, the sampled correspondence (model = code only on inputs compared)",
-        "technique": "Lean 4 proof by induction over the tape grammar (model of cassette.py) + differential correspondence + strict-parser oracle",
-    },
-    "C14": {
-        "text": "Lean theorem C14_full: for EVERY list of files the bytes written are a well-formed tape stream (Spec.Tape.WellFormed: per file "
-                "filler, 15-byte name-file block, data blocks of 1..255 bytes concatenating to the data, EOF block; every block framed with "
-                "length and checksum (type+len+sum) mod 256) and consist of bytes; no exclusions. Tie: raw tape bytes of add_files compared "
-                "with the model on every run, and the strict checksum-verifying parser run on the implementation's buffers.",
-        "design_ref": "DESIGN.md section 5 C14",
-        "note": "trusted: Spec/Tape.lean (WellFormed, parse), Lean kernel, sampled correspondence of Cas.write with CassetteFile.add_files",
-        "technique": "Lean 4 constructive proof of the tape-grammar decomposition + differential correspondence on raw bytes + strict-parser oracle",
-    },
-}
+MANIFEST_TEXT = {'C02': {'text': 'Lean: C02_full_v2 : C02_Statement_v2 (Props/C02Full, C02C03Final) - for EVERY accepted program: the image exists and is the in-order '
+                 "concatenation of the statements' bytes (C02_image), addresses form the chain (C02_chain: first non-ORG statement at 0, every non-ORG "
+                 "statement at its predecessor's address + size), EVERY statement emits exactly `size` bytes (C02_bytes_eq_size, Props/C02Size: instructions "
+                 'of every addressing mode, register lists, data directives, RMB, FCC, directives that emit nothing; no hypothesis), Placement (C02_placement: '
+                 "loading the image at the reported origin - the last ORG, 0 without one - places every statement's bytes at the address the listing shows), "
+                 'every label is bound to the listing address of its statement and labels are unique (C02_labels), every EQU symbol has its defined value '
+                 'incl. EQUs defined by expressions of constants, of other EQUs and of labels (C02_equ, EquDefined). No exclusion is left since fix f9c374f '
+                 '(an ORG after the first label or byte is a diagnostic: orgOK, Lemmas/OrgFirst no_org_after_laid); the former B1 witnesses are *_fixed '
+                 "theorems (rejected). The first formalisation C02_Statement demanded 'ORG is statement 0', which is stronger than the property "
+                 '(C02_Statement_too_strong: C1 EQU 5 / ORG $100 / NOP is rightly accepted) - a slip of the statement, kept visible. C02_duplicate_label; '
+                 'undefined symbols are C04/C05 theorems.',
+         'design_ref': 'DESIGN.md section 5 C02, section 6 B',
+         'note': 'no known finding left (B1 repaired by f9c374f); trusted: Lean kernel, correspondence, listing re-computation oracle incl. the EQU reference '
+                 'evaluator',
+         'technique': 'Lean 4 proof (address fold induction, frame lemmas for the later passes, symbol-table lemmas) + differential correspondence + listing '
+                      're-computation oracle'},
+ 'C03': {'text': 'Lean: C03_full : C03_Statement (Props/C03Full, C02C03Final) - in EVERY accepted program every branch whose operand is a label stores a '
+                 'displacement d with target = address + size + sext(d) (short) resp. mod 65536 (long) (C03_branch_full), and every label,PCR / [label,PCR] / '
+                 'label+-c,PCR operand stores target - (address + size) in a field wide enough: the 8-bit form only for -128 <= d <= 127 (C03_pcr_label, '
+                 'C03_pcr8_width, Props/C03Width: invariant WInv through the size loop). No hypothesis about ORG is left: C03_no_org_between_branch / _pcr '
+                 'derive it from acceptance (orgOK). C03_diag_iff (a short branch is a diagnostic exactly when out of -128..+127, a long one beyond 16 bits), '
+                 'C03_branch_is_label / C03_branch_nonlabel_rejected, C03_size_sound, C03_force_is_16, C03_pcr_minus_label_16bit (number - label takes the '
+                 '16-bit form), tight witnesses at -128 / -129 / +127 / +128 and regression witnesses for the seven repaired defects found by this proof. '
+                 "Numeric n,PCR (d = n) is C01's theorem (C01_full, C01_text_pcr_rendered).",
+         'design_ref': 'DESIGN.md section 5 C03, section 6 B',
+         'note': 'no known finding left (B1 repaired by f9c374f); trusted: Lean kernel, Spec/MC6809 sext, correspondence, decode-and-check-target oracle',
+         'technique': 'Lean 4 proof (telescoping size sums to address differences; fixOne case analysis) + differential correspondence + '
+                      'decode-and-check-target oracle'},
+ 'C13': {'text': 'Lean: assemble_not_diverged (assembly terminates for EVERY input: the PCR size loop settles a statement per pass or the progress guard '
+                 "forces one) and assemble_internal_iff_expand: assemble ends in an internal error IF AND ONLY IF INCLUDE expansion ran out of the model's "
+                 "fuel (more than 64 nested files, standing for Python's RecursionError); in every other case - for EVERY input text - the result is output or "
+                 'a diagnostic (C13_of_expand_ne_internal, C13_no_include). Proved stage by stage from invariants of the values the parser can produce (no '
+                 'hypothesis assumed), including the recursive evaluation of EQU expressions (resolveF_good: a definition cycle is a diagnostic, standing for '
+                 'the wrapped RecursionError), the symbol-table pass (evalSyms_good) and the ORG rule (orgOK only yields a diagnostic). C13_Statement_false '
+                 "only through the 65-nested-INCLUDE program. parseLine(s)_no_internal; C10's asmMain_failure gives the exit-status clause.",
+         'design_ref': 'DESIGN.md section 5 C13, section 6 I',
+         'note': 'internal errors found on the way were repaired (fix: commits dfaa72e, 53e40d1, 3dc4a50, 077e4c2, 316e504, 8c9a9ea, 0addc5e, dfad397, '
+                 '145359a); the streams run under a 3 s watchdog',
+         'technique': 'Lean 4 proof (termination measure for the size fixpoint; outcome case analysis of the parser) + differential correspondence with '
+                      'watchdog + CLI exit-status oracle'},
+ 'C17': {'text': 'Translation validation of a stateless model: the Lean model assemble is a pure function (C17_history_free, C17_repeatable are immediate), so '
+                 'the content of this property is whether the PYTHON code carries state between assemblies; that is decided by running the implementation on '
+                 'random histories (accepted and rejected programs interleaved) in one interpreter, in fresh processes and under different hash seeds, and '
+                 "comparing each result with the implementation's own first result and with the history-free model, plus the source list before/after.",
+         'design_ref': 'DESIGN.md section 5 C17',
+         'note': 'not a proof about the Python: aliasing/mutation of module-level objects cannot be stated in Lean about a pure model; level '
+                 'translation_validation',
+         'technique': 'translation validation: history-free Lean model vs warm-process / fresh-process runs of the implementation (differential, metamorphic)'},
+ 'C18': {'text': 'Lean: C18_R3 (white space between fields, comments and mnemonic case do not change what a line parses to: scanLine_render is the '
+                 'canonical-form lemma of the line scanner with the exact side condition under which a comment is not swallowed by the operand field), C18_R4 '
+                 '(appending statements keeps the statements, symbol table and image of the shorter program as prefixes — proved through every stage incl. the '
+                 'PCR size loop by a stuttering simulation). R1 RELOCATION (Props/C18Reloc*, Lemmas/Reloc*): reloc_assign_iff (the moved program is laid out '
+                 'iff the original is, every address + D), reloc_fixOne_unmoved / _moved and reloc_bytes_unmoved / _moved (branches, PCR operands, label-label '
+                 'and label-free operands emit identical bytes; label, label+k, label-k emit the same bytes with the 16-bit field + D), reloc_finish (symbol '
+                 'table: labels + D, EQU constants unchanged) and reloc_finish_equ (an EQU defined by a label expression moves like an operand with that '
+                 'expression: T EQU L+1 by D, LEN EQU M-L not at all), lifted to parsed programs and source text (C18_R1_parsed, C18_R1_code, C18_R1 on the '
+                 "repaired statement: the literal C18_R1_Statement is false because an arbitrary 'label' string can turn the ORG line into a comment - "
+                 'C18_R1_Statement_false); classes with no claim are witnessed (reloc_crossing_100: JMP L is 2 bytes below $100; label*k; LEAX B-A,PCR). R2 '
+                 'RENAMING (Props/C18Rename, partial): lookup, Value.resolve, buildSymTab and non-indexed resolveOperand commute with an injective renaming; '
+                 'the rest of R2 is decided by the metamorphic oracle on the implementation plus the correspondence.',
+         'design_ref': 'DESIGN.md section 5 C18',
+         'note': 'R2 proved up to operand resolution only (resolveF_rename); finding S1 repaired by 4e31349 (C18_R2_*_fixed)',
+         'technique': 'Lean 4 proof (scanner canonical form; prefix stability through all passes) + metamorphic oracle on the implementation + differential '
+                      'correspondence'},
+ 'C19': {'text': 'Lean: include_textual (for every file system, prefix, suffix and include line: assembling with INCLUDE f equals assembling with the lines of '
+                 'f spliced in, whenever the including side does not end in an internal error), include_textual_star (any nesting, by induction), '
+                 'include_textual_cases (unconditional trichotomy), include_missing_diag / include_cycle_diag (a missing file and an inclusion cycle are '
+                 'diagnostics), C19_partial; C19_not_full only through nesting deeper than 64 files.',
+         'design_ref': 'DESIGN.md section 5 C19',
+         'note': "missing files and cycles are diagnostics since fix 8c9a9ea (include_missing_diag, include_cycle_diag); 'internal' remains only through "
+                 "INCLUDE nesting deeper than the model's fuel (64), which stands for Python's RecursionError",
+         'technique': 'Lean 4 proof (expansion distributes over concatenation, fuel monotonicity) + differential correspondence + '
+                      'implementation-vs-implementation splice oracle'},
+ 'C09': {'text': 'Lean: sniff_written_disk (every image the tool writes as a disk is recognised as a disk, whatever its content), sniff_written_cassette (a '
+                 'written cassette shorter than 161,280 bytes is recognised as a cassette), hist_cassette / hist_disk (for EVERY history of add-batches with '
+                 'save and re-open in between, the final image is exactly the image of all files in order, so every stored file lists unchanged and new ones '
+                 'come last; induction over the history using C06/C07/C08), C09_Statement_false via E1. Exclusions: E1, G1 (K_C09_bigCassette), disk names '
+                 'with blanks.',
+         'design_ref': 'DESIGN.md section 5 C09, section 6 G',
+         'note': 'known findings E1, G1; trusted: Lean kernel, Spec files, correspondence (real temp files vs abstract FS)',
+         'technique': 'Lean 4 proof (refinement of save/re-open histories to an append-only file list, sniffing lemmas) + differential histories on real files '
+                      '+ reader oracle'},
+ 'C10': {'text': 'Lean: C10_partial (a successful open/add/save changes only the target path; an existing target is rewritten only when append was requested '
+                 "AND the tool's sniffer took its old content for an image of the requested kind, and the new content is exactly the image of old files ++ new "
+                 'files), C10_no_append (without append an existing target is never written), C10_outside_exclusion (the statement with the FORMAT '
+                 'specifications as criterion, outside K_C10_sniff = sniffer accepts what the specification rejects: finding G1), asmMain_failure (no '
+                 'successful assembly => exit 1 and the file system unchanged). PARTIAL by nature: non-atomic host writes and exists-races are outside any '
+                 'model.',
+         'design_ref': 'DESIGN.md section 5 C10',
+         'note': 'known finding G1; named remainder: OS write atomicity, os.path.exists races',
+         'technique': 'Lean 4 proof over an abstract host file system (frame + guard theorem for open/add/save) + differential runs of both command lines on '
+                      'real files + format-spec classification oracle'},
+ 'C11': {'text': 'Lean: C11_bin (the raw binary written to a fresh path is the assembled image), C11_cas / C11_dsk (the file written is Cas.write [f] / '
+                 'Dsk.write [f] for f = (name, image, load = exec = origin); with C14/C06 resp. C08/C07 it is well formed and lists exactly that file), '
+                 "C11_name_source / C11_name_arg, C11_load_org / C11_load_none (the origin's hex path gives the right 16-bit address), C11_noname, C11_all, "
+                 'C11_partial.',
+         'design_ref': 'DESIGN.md section 5 C11',
+         'note': 'hypotheses of C11_partial: image bytes < 256 and origin < 65536 (originAddr_lt_cases discharges the ORG spellings); E1 for an empty program',
+         'technique': 'Lean 4 proof (glue lemmas composing the assembler model with C06/C07/C08/C14) + differential command-line runs + reference-reader '
+                      'oracle'},
+ 'C16': {'text': "Lean: C16_to_cas / C16_to_dsk / C16_to_bin (the converted image is the writer's image of exactly the selected files of the source in source "
+                 'order; --to_bin refuses more than one file), C16_selected_* (selection is case-insensitive), C16_chain_cas_dsk_cas / C16_chain_dsk_cas_dsk '
+                 '(converting back yields the original file set up to the normalisation of each container), C16_partial.',
+         'design_ref': 'DESIGN.md section 5 C16',
+         'note': 'exclusions inherited: E1, G1; trusted as for C06/C07',
+         'technique': 'Lean 4 proof (filter lemma + container round-trip theorems) + differential file_util runs + reference-reader oracle'},
+ 'C01': {'text': 'Lean: (i) table_matches_datasheet / map_covered - the instruction table REGENERATED from /repo on every run agrees cell by cell (operation, '
+                 'addressing mode, size) with the datasheet opcode map, both directions, by kernel evaluation over all 150 rows; (ii) Encodes r o x = '
+                 'translate, then fit_operand_width (fitWidth), then emit: the bytes are read back by the datasheet decoder as exactly that operation and '
+                 'operand, byte count = size. C01_full : C01_Statement - for EVERY non-pseudo row and EVERY operand of the full-strength relation Intends '
+                 '(inherent; 8-/16-bit immediates incl. negatives; direct; extended; [extended indirect]; no-offset, auto inc/dec, accumulator forms for X Y U '
+                 'S and their indirect variants; 5/8/16-bit constant offsets of either sign, direct and indirect; numeric n,PCR and [n,PCR]; all TFR/EXG '
+                 'pairs; push/pull lists) the statement is encoded as written, for ALL operand values and ANY spelling hint; C01_full_emitted lifts it to the '
+                 'fixAll step of any program; the former findings are *_fixed theorems on the same witnesses (LDD 100,X = EC 88 64; LDA #256 rejected; PSHU S '
+                 '= 36 40; LDA 0,PCR = A6 8C 00 ...); (iii) C01_text_partial / C01_text_rendered / C01_text_pcr_rendered (Props/C01Text): the same from the '
+                 'OPERAND TEXT for every spelling family (decimal / $hex literals as immediates, direct, extended, <n, >n, >$hh, [indirect]; ,R ,R+ ,R++ ,-R '
+                 ',--R, A,R B,R D,R for X Y U S with [..] variants; decimal offsets of every width and sign; n,PCR) plus rejection theorems. Intends speaks '
+                 'about numeric operands; label operands: C01_label_offset (a label or label expression as constant offset of a pointer register and inside '
+                 "[..], since fix 831a353) and C03 (label,PCR, branches); symbols and expressions: C04's theorems plus the statement matrix.",
+         'design_ref': 'DESIGN.md section 5 C01, section 6 A',
+         'note': 'no known finding left for C01; trusted: Spec/MC6809*.lean, Lean kernel, correspondence (statement matrix complete in the thorough tier, '
+                 'sampled in quick)',
+         'technique': 'Lean 4 proof (kernel-evaluated table check + per-addressing-mode encode/decode theorems for all values) + differential correspondence + '
+                      'datasheet-decoder oracle'},
+ 'C12': {'text': 'Lean: C12_full : C12_Statement (Props/C12Full, Lemmas/EncodeShape) - for every machine-instruction row, EVERY operand text and every table '
+                 'of EQU constants: the operand the front end builds (create_from_str cascade, then resolve_symbols), if translate and fit_operand_width '
+                 'accept it, emits exactly `size` bytes that the datasheet decoder reads as ONE complete instruction of that mnemonic consuming all of them. '
+                 'Proved by a shape theorem for everything the front end can build (frontEnd_shape) and one soundness theorem per shape; the index-register '
+                 'text is validated since fix d1a841f, which makes the case analysis finite. Rejections: C12_imm8/imm16/direct_out_of_range_rejected (values '
+                 "that cannot be represented in the operand's width), C12_unknown_index_register_rejected (5,Z 1,PC 5,y ,X+++), C12_own_stack_pointer_rejected "
+                 '(PSHS S, PSHU U), C12_unknown_register_rejected, C12_pcr_without_offset_rejected; C12_fitted_size (the size half for every statement of any '
+                 'program). The former finding C12_finding_acc_autoincrement (LDA A,X+ accepted as A,X) is repaired (480ca57) and a *_fixed theorem. Label '
+                 "operands (branches, label,PCR) are completed by the address pass and are C03's and C02's theorems; arbitrary text is additionally covered by "
+                 'the correspondence and the decoder oracle.',
+         'design_ref': 'DESIGN.md section 5 C12, section 6 A, H',
+         'note': 'no known finding left for C12; trusted: Spec/MC6809*.lean, Lean kernel, correspondence',
+         'technique': 'Lean 4 proof (soundness dual of C01 on the proved region, refutation witnesses) + differential correspondence + datasheet-decoder '
+                      'oracle on accepted statements'},
+ 'C04': {'text': 'Lean: C04_full : C04_Statement and C04_label_full - (numeric part) for operands of EITHER sign a two-term expression resolves to the '
+                 'arithmetic value of + - * and truncating / (resolve_signed, resolve_symbols_signed), the result being an extended address above 255 and a '
+                 'negative memory operand the extended address mod 65536; division by zero and results above 65535 are errors; (symbol part) EQU symbols are '
+                 'replaced by their table value whatever the definition order (resolve_symbol_left/right, resolve depends on the table only through lookups: '
+                 'SymbolPart clause 4, re-proved for the fuelled resolveF); an EQU DEFINED BY AN EXPRESSION stands for the arithmetic value of that expression '
+                 'wherever it is used and in the symbol table (resolve_symbol_equ_expression(_error), resolve_expr_equ_expression_left, chains '
+                 'C04_equ_expression_chain, cycles and self reference are diagnostics: resolve_symbol_self_reference, C04_equ_expression_cycle); label '
+                 'arithmetic: addrOffset_* (label +- constant, label op label from the ADDRESSES in the order written, signed constants, a result below zero '
+                 "reduced mod 65536, overflow and division by zero are diagnostics); symbols may contain '_' and '@' (C04_symbol_characters_fixed). The width "
+                 "per operand position is C01's / C12's theorem (fit_operand_width).",
+         'design_ref': 'DESIGN.md section 5 C04, section 6 C',
+         'note': 'no known finding left for C04 (C3, C4 and the operand-order finding are repaired: 831a353, 0f280be, bd9f69a); symbols inside FCB/FDB LISTS '
+                 "are finding C2 (C05); model limit: Python's recursion limit (about 480 nested EQU definitions) is not modelled, the model's fuel is the "
+                 'table length + 1',
+         'technique': 'Lean 4 proof (expression evaluator and address-offset lemmas) + differential correspondence + arithmetic oracle on decoded operand '
+                      'values'},
+ 'C05': {'text': "Lean: C05_full proves C05_Statement at full strength on the model: a single FCB / FDB value emits its two's complement at one / two bytes "
+                 '(through fit_operand_width) for every in-range value incl. negatives, out-of-range values are rejected, lists likewise element by element '
+                 '(C05_FCB/FDB_signed_list(_rejected)), RMB n emits n zero bytes for every n and a negative or non-numeric count is rejected, FCC emits '
+                 'exactly the characters of the parsed string, EQU/SETDP/NAM/END/INCLUDE/ORG emit nothing; C05_FCC_line_as_written / C05_FCC_line_bytes (since '
+                 'fix d74c37d, GENERAL): for a line `label FCC d body d tail` with any non-blank delimiter d and any body of 8-bit characters without d - '
+                 "blanks, runs of blanks, ';' and punctuation included - the bytes are exactly the characters of body and the comment is tail; symbols: "
+                 'C05_FCB/FDB/RMB/ORG_symbol, C05_undefined_symbol; whole-program kernel-checked witnesses through assemble. Remaining finding with witness: '
+                 'C05_finding_list_symbol (a symbol inside a LIST is rejected).',
+         'design_ref': 'DESIGN.md section 5 C05, section 6 D',
+         'note': 'known finding C2 (lists only); D3 repaired by d74c37d; trusted: Lean kernel, correspondence, byte-exact oracle on the emitted IMAGE',
+         'technique': 'Lean 4 proof (data-directive emission lemmas by induction over value lists / string / count) + differential correspondence + byte-exact '
+                      'oracle'},
+ 'C07': {'text': 'Lean theorems C07_write_list (for EVERY valid fill order and file list: list(write fs) = norm fs) and C07_reader_partial (the reader returns '
+                 'exactly what the reference reader Spec.DiskBasic.read finds on ANY image satisfying Spec.DiskBasic.Fsck, chains in any order, not adjacent), '
+                 'proved from an invariant over operation histories on the flat 161,280-byte buffer. One exclusion (ASCII file with a $C0 last-granule '
+                 'marker). Tie: differential runs on written, fragmented and damaged images every run.',
+         'design_ref': 'DESIGN.md section 5 C07, section 6 F',
+         'note': 'model = disk.py after the fix: commits (reader follows the FAT chain); trusted: Spec/DiskBasic.lean, Lean kernel, sampled correspondence',
+         'technique': 'Lean 4 proof (history invariant on the flat disk buffer, chain-walk induction) + differential correspondence + reference fsck/reader '
+                      'oracle'},
+ 'C08': {'text': 'Lean theorem C08_full: for every fill order with entries < 68 and every sequence of stored files, the image written satisfies '
+                 'Spec.DiskBasic.Fsck (size, chains within 0..67 ending in $C0..$C9 without revisits, disjoint, every non-free FAT entry on a chain, implied '
+                 'length = stored stream incl. ML header/trailer, everything else still $FF) and the reference reader returns exactly the stored files. No '
+                 'exclusions. Tie: whole-image hash + FAT + directory compared with the implementation on every run; calculate_*/seek_granule exhaustively.',
+         'design_ref': 'DESIGN.md section 5 C08',
+         'note': 'model = disk.py after the fix: commits (postamble split across granules); trusted: Spec/DiskBasic.lean, Lean kernel, correspondence '
+                 '(exhaustive on the arithmetic helpers, sampled on histories)',
+         'technique': 'Lean 4 proof: ghost-abstraction invariant Inv img abs preserved by addFile, lifted by induction over histories + differential '
+                      'correspondence + fsck oracle'},
+ 'C15': {'text': "Lean theorem C15_full: on every image reachable from a blank one, a file needing n <= free granules with a free slot is stored with free' = "
+                 "free - n, slots' = slots - 1, previously used FAT entries untouched, n = streamLength/2304 + 1; otherwise addFile is a diagnostic; blank "
+                 'offers 68 and 72. Tie: fill-to-exhaustion histories against the implementation one add at a time, recounted by the reference fsck.',
+         'design_ref': 'DESIGN.md section 5 C15',
+         'note': "the 'host file left as it was' clause is carried by the VirtualFile model (C10: a diagnostic in save writes nothing); trusted as for C08",
+         'technique': 'Lean 4 proof (corollary of the C08 invariant with counting) + differential fill-to-exhaustion histories + fsck recount oracle'},
+ 'C06': {'text': 'Lean theorems C06_roundtrip_partial (list(write fs) = norm fs for every file list, every data length and content) and C06_reader_partial '
+                 '(the scanning reader returns exactly the files of ANY well-formed tape stream: arbitrary gap/leader lengths, gaps between data blocks, '
+                 'payloads containing the block markers), by induction over the tape grammar; the only exclusion is files with empty data (known finding E1, '
+                 'itself a kernel-checked theorem C06_finding_E1). The model is tied to cassette.py on every run by differential execution (tool-written '
+                 'images, spec-generated tapes, damaged streams).',
+         'design_ref': 'DESIGN.md section 5 C06, section 6 E',
+         'note': 'assumes ASCII names and byte-sized fields; trusted: Spec/Tape.lean, Lean kernel, the sampled correspondence (model = code only on inputs '
+                 'compared)',
+         'technique': 'Lean 4 proof by induction over the tape grammar (model of cassette.py) + differential correspondence + strict-parser oracle'},
+ 'C14': {'text': 'Lean theorem C14_full: for EVERY list of files the bytes written are a well-formed tape stream (Spec.Tape.WellFormed: per file filler, '
+                 '15-byte name-file block, data blocks of 1..255 bytes concatenating to the data, EOF block; every block framed with length and checksum '
+                 '(type+len+sum) mod 256) and consist of bytes; no exclusions. Tie: raw tape bytes of add_files compared with the model on every run, and the '
+                 "strict checksum-verifying parser run on the implementation's buffers.",
+         'design_ref': 'DESIGN.md section 5 C14',
+         'note': 'trusted: Spec/Tape.lean (WellFormed, parse), Lean kernel, sampled correspondence of Cas.write with CassetteFile.add_files',
+         'technique': 'Lean 4 constructive proof of the tape-grammar decomposition + differential correspondence on raw bytes + strict-parser oracle'}}
